@@ -56,7 +56,10 @@ def load_spec(pid):
 def regenerate():
     """T1/T2: rebuild the translator and fact extractor, regenerate SemaModel/Generated from the
     working tree.  Files are replaced only when their content changed (keeps lake incremental);
-    stale generated files are removed.  Returns (ok, message)."""
+    stale generated files are removed.  Returns (ok, message, stale): when a tool fails, the files
+    of the tools (and of the go2lean modules) that did succeed are installed, and `stale` names the
+    generated files that were NOT regenerated (they are left as they were, so that the rest of the
+    Lean project still builds); the caller decides which properties depend on them."""
     os.makedirs(BUILD, exist_ok=True)
     msgs = []
     ok = True
@@ -80,19 +83,45 @@ def regenerate():
             msgs.append(f"tools/{tool} could not translate the working tree:\n{out.strip()}")
     gen = os.path.join(LEAN, "SemaModel", "Generated")
     os.makedirs(gen, exist_ok=True)
-    if ok:
-        new = set(os.listdir(tmp))
-        for f in os.listdir(gen):
-            if f not in new:
+    new = set(os.listdir(tmp))
+    stale = set()
+    for f in os.listdir(gen):
+        if f not in new:
+            if ok:
                 os.remove(os.path.join(gen, f))
-        for f in new:
-            a, b = os.path.join(tmp, f), os.path.join(gen, f)
-            if not os.path.exists(b) or open(a, "rb").read() != open(b, "rb").read():
-                shutil.copyfile(a, b)
+            else:
+                stale.add(f)
+    for f in new:
+        a, b = os.path.join(tmp, f), os.path.join(gen, f)
+        if not os.path.exists(b) or open(a, "rb").read() != open(b, "rb").read():
+            shutil.copyfile(a, b)
     shutil.rmtree(tmp, ignore_errors=True)
     from verifcore import genmain
     genmain.generate(LEAN)
-    return ok, "\n".join(msgs)
+    return ok, "\n".join(msgs), stale
+
+
+def generated_deps(pid, modules):
+    """file names under SemaModel/Generated that the given Lean modules and the property's model driver
+    import, directly or not"""
+    todo = list(modules) + [f"SemaModel.{pid}.Driver"]
+    seen, gens = set(), set()
+    while todo:
+        m = todo.pop()
+        if m in seen:
+            continue
+        seen.add(m)
+        if m.startswith("SemaModel.Generated."):
+            gens.add(m.split(".")[-1] + ".lean")
+            continue
+        path = os.path.join(LEAN, *m.split(".")) + ".lean"
+        if not os.path.exists(path):
+            continue
+        for l in open(path, errors="replace"):
+            mm = re.match(r"\s*import\s+(\S+)", l)
+            if mm and mm.group(1).startswith("SemaModel"):
+                todo.append(mm.group(1))
+    return gens
 
 
 def lake_build(targets):
@@ -245,9 +274,15 @@ def main(argv):
     compared = 0
 
     with Lock():
-        ok, msg = regenerate()
+        ok, msg, stale = regenerate()
         if not ok:
-            broken.append(("translator", "tools/go2lean|facts", msg))
+            # a tool could not read the working tree.  That breaks the tie of THIS property only if one of the
+            # generated files it depends on was not regenerated (nothing known to be stale: assume it does)
+            hit = sorted(stale & generated_deps(pid, spec["lean_modules"])) if stale else ["?"]
+            if hit:
+                broken.append(("translator", "tools/go2lean|facts", msg + "\nnot regenerated, and used by this property: " + ", ".join(hit)))
+            else:
+                log("a fact extractor / the translator failed on files this property does not depend on (not regenerated: " + ", ".join(sorted(stale)) + "); see the checks of the properties that use them")
         # proof obligations
         ok, out, errs, dt = lake_build(spec["lean_modules"])
         log(f"lake build {' '.join(spec['lean_modules'])}: {'ok' if ok else 'FAILED'} ({dt:.1f}s)")
